@@ -31,6 +31,8 @@ def gen_cases(tier, seed):
         c["storage"] = ["plain", "strided", "plain", "transposed", "shared-base", "plain"][c["n"] % 6]
         if c["op"] in ("sigmoid", "tanh", "selu", "softmax", "log_softmax", "bce_with_logits", "cross_entropy") and c["n"] % 3 == 1:
             c["a"] = dict(c["a"], vclass="huge")           # saturating magnitudes (|x| up to 800), both dtypes
+        if c["op"] in ("sigmoid", "tanh") and c["n"] % 3 == 2:
+            c["a"] = dict(c["a"], vclass="tails")          # 16 <= |x| <= 80: tiny results far from underflow
         sv = SPECIAL_V.get(c["op"])
         if sv:
             c["a"] = dict(c["a"], vclass=sv[c["n"] % len(sv)])
@@ -118,6 +120,15 @@ def run_case(ns, mon, case):
             if not np.isfinite(opmax):
                 opmax = 0.0
             b = bound(ref, np.asarray(ref_abs, dtype=np.float64), opmax, dt, max(x.size for x in xs), K0=256 if op.name == "batch_norm" else 32)
+            if op.name in ("sigmoid", "tanh"):
+                # smooth element-wise functions are judged component-wise: the result is the exact function of an input perturbed by a few ulps
+                # (relative accuracy also in the tails, where the result is tiny), with the smallest normal number as absolute floor
+                e_ = float(np.finfo(dt).eps)
+                x0_ = xs[0].astype(np.float64)
+                with np.errstate(all="ignore"):
+                    up_ = np.asarray(nncommon.reference(case, [x0_ * (1 + 4 * e_)] + list(xs[1:])), dtype=np.float64)
+                    dn_ = np.asarray(nncommon.reference(case, [x0_ * (1 - 4 * e_)] + list(xs[1:])), dtype=np.float64)
+                b = 16 * e_ * np.abs(ref) + np.abs(up_ - ref) + np.abs(dn_ - ref) + float(np.finfo(dt).tiny)
             if op.name == "batch_norm":
                 # the rounding of x and of the mean is divided by sqrt(var+eps): the bound follows the conditioning of the statistics used
                 x0 = xs[0].astype(np.float64)
